@@ -218,6 +218,12 @@ LineOK(e, line) ==
     /\ r.tlo <= line.t /\ line.t <= (IF r.thi = -1 THEN r.clk ELSE r.thi)
     /\ SubOK(r, line.sub)
 
+\* the lines LineOK allows for request e right now (for the modules that generate behaviours)
+LinesFor(e) ==
+    LET r == rq[e] IN
+    {line \in {[e |-> e, op |-> r.op, ts |-> r.ts, c |-> r.cnt, h |-> r.cnt, t |-> t, sub |-> s] :
+                  t \in r.tlo..(IF r.thi = -1 THEN r.clk ELSE r.thi), s \in {-1, r.subv}} : LineOK(e, line)}
+
 \* the writer hands the popped entry to the stream: exactly one line, with the entry's content
 Write(e, line) ==
     /\ Has(e) /\ LineOK(e, line)
@@ -265,8 +271,7 @@ DetachComplete == Detached => /\ \A e \in DOMAIN rq : Must(e) => e \in flushed
 \* a completed flush covers everything appended before it was requested
 FlushCovers == \A f \in fdone : closed \/ before[f] \subseteq (lost \cup flushed)
 \* real-time order of appends is output order (this subsumes per-thread order)
-AppendOrder == \A e2 \in Written : \A e1 \in rq[e2].pred :
-                   e1 \in Written => Pos(e1) < Pos(e2)
+AppendOrder == \A i, j \in 1..Len(nexted) : i < j => nexted[j] \notin rq[nexted[i]].pred
 \* the final content: counter fields carry every mutation, constant fields are the request's
 Content == \A i \in 1..Len(out) :
              LET r == rq[out[i].e] IN
